@@ -151,6 +151,13 @@ def extract_inputs(trace, entry, harness_file=None):
     """Final value of each harness-level variable (inputs are initialised from nondet_vf_* once).
     CBMC reports struct/array assignments piecewise (x, x.b, x.b[3l]), so paths are applied in order."""
     inputs = {}
+    # names declared through VF_SCALAR / VF_BYTES (their initialisers are calls to nondet_vf_<name>_<line>)
+    declared = set()
+    for st in trace:
+        mo = re.match(r'return_value_nondet_vf_(.+)_\d+$', st.get('lhs', '') or '')
+        if mo:
+            declared.add(mo.group(1))
+            declared.add(mo.group(1) + '_s')
     for st in trace:
         if st.get('stepType') != 'assignment':
             continue
@@ -163,6 +170,8 @@ def extract_inputs(trace, entry, harness_file=None):
             continue
         name, path = mo.group(1), mo.group(2)
         if name.startswith('return_value_') or name.startswith('tmp_') or name.startswith('__'):
+            continue
+        if declared and name not in declared:
             continue
         val = value_of(st.get('value'))
         if not path:
